@@ -25,7 +25,8 @@ EXTENDS Naturals, Sequences, FiniteSets, TLC
 CONSTANTS N, Limit
 
 Reqs == 1..N
-VARIABLES inQ,      \* the worker queues the main loop reads: <<"req", r>> and <<"ans", r>> in arrival order
+VARIABLES inQ,      \* the queue of the first interface (requests <<"req", r>>), which the main loop looks at first
+          inQ2,     \* the queue of the second interface (the back-end's answers <<"ans", r>>), read when the first one is empty
           rpc,      \* route thread of request r: "none", "reg", "send", "wait", "answer", "done"
           dpc,      \* dispatcher thread of the nested answer for r: "none", "check", "notify", "done"
           pending,  \* registered waiters
@@ -33,39 +34,39 @@ VARIABLES inQ,      \* the worker queues the main loop reads: <<"req", r>> and <
           sentSub,  \* nested requests that reached the back-end
           answeredSub, \* nested requests the back-end has answered
           out       \* requests that have been answered
-vars == <<inQ, rpc, dpc, pending, woken, sentSub, answeredSub, out>>
+vars == <<inQ, inQ2, rpc, dpc, pending, woken, sentSub, answeredSub, out>>
 
-Init == /\ inQ = [i \in 1..N |-> <<"req", i>>]
+Init == /\ inQ = [i \in 1..N |-> <<"req", i>>] /\ inQ2 = <<>>
         /\ rpc = [r \in Reqs |-> "none"] /\ dpc = [r \in Reqs |-> "none"]
         /\ pending = {} /\ woken = {} /\ sentSub = {} /\ answeredSub = {} /\ out = {}
 
 Alive == Cardinality({r \in Reqs : rpc[r] \notin {"none", "done"}}) + Cardinality({r \in Reqs : dpc[r] \notin {"none", "done"}})
 
 \* Bromelia.main: take the next message and start its thread (as long as the limit allows)
-MainTake == /\ inQ # <<>> /\ Alive < Limit
-            /\ LET m == Head(inQ) IN
+MainTake == /\ (inQ # <<>> \/ inQ2 # <<>>) /\ Alive < Limit
+            /\ LET m == IF inQ # <<>> THEN Head(inQ) ELSE Head(inQ2) IN
                  IF m[1] = "req" THEN /\ rpc' = [rpc EXCEPT ![m[2]] = "reg"] /\ dpc' = dpc
                                  ELSE /\ dpc' = [dpc EXCEPT ![m[2]] = "check"] /\ rpc' = rpc
-            /\ inQ' = Tail(inQ)
+            /\ IF inQ # <<>> THEN inQ' = Tail(inQ) /\ inQ2' = inQ2 ELSE inQ2' = Tail(inQ2) /\ inQ' = inQ
             /\ UNCHANGED <<pending, woken, sentSub, answeredSub, out>>
 \* route thread r
 Reg(r) == rpc[r] = "reg" /\ pending' = pending \cup {r} /\ rpc' = [rpc EXCEPT ![r] = "send"]
-          /\ UNCHANGED <<inQ, dpc, woken, sentSub, answeredSub, out>>
+          /\ UNCHANGED <<inQ, inQ2, dpc, woken, sentSub, answeredSub, out>>
 Send(r) == rpc[r] = "send" /\ sentSub' = sentSub \cup {r} /\ rpc' = [rpc EXCEPT ![r] = "wait"]
-           /\ UNCHANGED <<inQ, dpc, pending, woken, answeredSub, out>>
+           /\ UNCHANGED <<inQ, inQ2, dpc, pending, woken, answeredSub, out>>
 Wake(r) == rpc[r] = "wait" /\ r \in woken /\ rpc' = [rpc EXCEPT ![r] = "answer"]
-           /\ UNCHANGED <<inQ, dpc, pending, woken, sentSub, answeredSub, out>>
+           /\ UNCHANGED <<inQ, inQ2, dpc, pending, woken, sentSub, answeredSub, out>>
 Answer(r) == rpc[r] = "answer" /\ out' = out \cup {r} /\ rpc' = [rpc EXCEPT ![r] = "done"]
-             /\ UNCHANGED <<inQ, dpc, pending, woken, sentSub, answeredSub>>
+             /\ UNCHANGED <<inQ, inQ2, dpc, pending, woken, sentSub, answeredSub>>
 \* the back-end answers a nested request it has received
 BackEnd(r) == /\ r \in sentSub \ answeredSub
-              /\ answeredSub' = answeredSub \cup {r} /\ inQ' = Append(inQ, <<"ans", r>>)
-              /\ UNCHANGED <<rpc, dpc, pending, woken, sentSub, out>>
+              /\ answeredSub' = answeredSub \cup {r} /\ inQ2' = Append(inQ2, <<"ans", r>>)
+              /\ UNCHANGED <<inQ, rpc, dpc, pending, woken, sentSub, out>>
 \* dispatcher thread of the nested answer
 Check(r) == dpc[r] = "check" /\ dpc' = [dpc EXCEPT ![r] = IF r \in pending THEN "notify" ELSE "done"]
-            /\ UNCHANGED <<inQ, rpc, pending, woken, sentSub, answeredSub, out>>
+            /\ UNCHANGED <<inQ, inQ2, rpc, pending, woken, sentSub, answeredSub, out>>
 Notify(r) == dpc[r] = "notify" /\ pending' = pending \ {r} /\ woken' = woken \cup {r} /\ dpc' = [dpc EXCEPT ![r] = "done"]
-             /\ UNCHANGED <<inQ, rpc, sentSub, answeredSub, out>>
+             /\ UNCHANGED <<inQ, inQ2, rpc, sentSub, answeredSub, out>>
 
 Done == out = Reqs /\ UNCHANGED vars
 Next == MainTake \/ Done \/ \E r \in Reqs : Reg(r) \/ Send(r) \/ Wake(r) \/ Answer(r) \/ BackEnd(r) \/ Check(r) \/ Notify(r)
